@@ -299,8 +299,10 @@ class CanonFam(Family):
             yield {"p": "".join(rng.choice(self.ALPH) for _ in range(rng.randint(0, 12)))}
 
     def impl(self, case):
-        from nauyaca.utils.url import canonical_path
-
+        try:
+            from nauyaca.utils.url import canonical_path
+        except ImportError:
+            return "<no canonical_path in nauyaca.utils.url>"
         return canonical_path(case["p"])
 
     def model(self, case):
